@@ -128,12 +128,14 @@ class App(object):
     """A placement service instance bound to one sqlite database file."""
 
     def __init__(self, db_path=None, conf_overrides=None, policy_rules=None,
-                 record_faults=True, auth_strategy='noauth2'):
+                 record_faults=True, auth_strategy='noauth2',
+                 config_text=None):
         self.own_dir = None
         if db_path is None:
             self.own_dir = scratch_dir()
             db_path = os.path.join(self.own_dir, 'p.db')
         self.db_path = db_path
+        self.config_text = config_text
         self.conf = self._make_conf(db_path, conf_overrides, auth_strategy)
         self._reset_globals()
         db_api.configure(self.conf)
@@ -168,7 +170,13 @@ class App(object):
         conf.set_default('connection', 'sqlite:///' + db_path,
                          group='placement_database')
         conf.set_default('auth_strategy', auth_strategy, group='api')
-        conf([], default_config_files=[])
+        files = []
+        if self.config_text:
+            path = db_path + '.conf'
+            with open(path, 'w') as f:
+                f.write(self.config_text)
+            files = [path]
+        conf([], default_config_files=files)
         for (group, name), value in (overrides or {}).items():
             conf.set_override(name, value, group=group)
         return conf
